@@ -247,6 +247,63 @@ def d3_rebase(chk: Check) -> None:
                  "point (sections {}, merge points {})".format(secs, mps))
 
 
+REBASE_TABLE = [
+    # (rule path, merge point) -> re-based text, or None for "unchanged"
+    ("/abc/def", "/abc", "/def"),
+    ("/abc", "/abc", ""),            # the merge point itself: the RHS root
+    ("/abc[0]", "/abc", "[0]"),
+    ("/abc/def/g", "/abc/def", "/g"),
+    ("/x/y", "/abc", None),
+    ("/ab", "/abc", None),
+    ("/abcdef", "/abc", None),       # not a segment boundary: another key
+    ("/abcdef/ghi", "/abc", None),
+    ("/abc(x)", "/abc", "(x)"),
+    ("/abc/def", "/", None),
+]
+
+
+def d3b_strip(chk: Check) -> None:
+    """strip_path_prefix folded over a table of (path, prefix) texts: the
+    string operations are total builtins on constants, nothing of the
+    repository is executed."""
+    from sa.peval import Const, Kind, PEval
+    prog = chk.prog
+    chk.rule("C11-D3b", "strip_path_prefix re-bases a path at or below the "
+             "merge point to the remainder (the merge point itself to the "
+             "empty path) and leaves other paths alone", floor=10)
+    fi = prog.func("YAMLPath.strip_path_prefix")
+    chk.analysed(fi)
+    path, prefix = fi.params()[0], fi.params()[1]
+    pe = PEval()
+    for q, p, want in REBASE_TABLE:
+        env = {"str({})".format(prefix): Const(p),
+               "str({})".format(path): Const(q),
+               prefix: Kind("obj"), path: Kind("obj")}
+        pe.specialise(fi.node.body, env, pinned=[prefix, path])
+        text = "strip_path_prefix({!r}, {!r})".format(q, p)
+        rets = pe.returned
+        if len(rets) != 1:
+            raise AnalysisError(
+                "{} not decided by constant folding ({} reachable returns)"
+                .format(text, len(rets)))
+        stmt, _, argv = rets[0]
+        if isinstance(stmt.value, ast.Name) and stmt.value.id == path:
+            got = None
+        elif len(argv) == 1 and isinstance(argv[0], Const):
+            got = argv[0].value
+        else:
+            got = "<undecided: {}>".format(src(stmt.value))
+        if got == want:
+            chk.ok("C11-D3b", fi, stmt, text,
+                   "-> {!r}".format("unchanged" if got is None else got))
+        else:
+            chk.fail("C11-D3b", fi, stmt, text,
+                     "re-bases to {!r}, expected {!r}: the rule would not "
+                     "reach the right-hand node it names".format(
+                         "unchanged" if got is None else got,
+                         "unchanged" if want is None else want))
+
+
 def d4_no_partial(chk: Check) -> None:
     prog = chk.prog
     chk.rule("C11-D4", "yaml-merge writes its output only with a zero exit "
@@ -272,4 +329,5 @@ def run(chk: Check) -> None:
     d1_root(chk)
     d2_targets(chk)
     d3_rebase(chk)
+    d3b_strip(chk)
     d4_no_partial(chk)
